@@ -235,12 +235,11 @@ impl<'cmd> Parser<'cmd> {
                             // revisit the current group of short flags skipping the subcommand.
                             keep_state = self
                                 .flag_subcmd_at
-                                .map(|at| {
+                                .map(|_at| {
                                     raw_args
                                         .seek(&mut args_cursor, clap_lex::SeekFrom::Current(-1));
-                                    // Since we are now saving the current state, the number of flags to skip during state recovery should
-                                    // be the current index (`cur_idx`) minus ONE UNIT TO THE LEFT of the starting position.
-                                    self.flag_subcmd_skip = self.cur_idx.get() - at + 1;
+                                    // The number of flags to skip during state recovery was
+                                    // recorded by `parse_short_arg`
                                 })
                                 .is_some();
 
@@ -940,6 +939,8 @@ impl<'cmd> Parser<'cmd> {
             Ok(()),
             "tracking of `flag_subcmd_skip` is off for `{short_arg:?}`"
         );
+        // Short flags of this group handled so far, including those before a flag subcommand
+        let mut consumed = skip;
         while let Some(c) = short_arg.next_flag() {
             let c = match c {
                 Ok(c) => c,
@@ -949,6 +950,7 @@ impl<'cmd> Parser<'cmd> {
                     });
                 }
             };
+            consumed += 1;
             debug!("Parser::parse_short_arg:iter:{c}");
 
             // Check for matching short options, and return the name if there is no trailing
@@ -1014,6 +1016,10 @@ impl<'cmd> Parser<'cmd> {
                 let done_short_args = short_arg.is_empty();
                 if done_short_args {
                     self.flag_subcmd_at = None;
+                } else {
+                    // The subcommand revisits this group of short flags, skipping everything up
+                    // to and including its own flag
+                    self.flag_subcmd_skip = consumed;
                 }
                 Ok(ParseResult::FlagSubCommand(name))
             } else {
